@@ -86,7 +86,7 @@ def run(p: Program, rep: Report, tier: str) -> None:
         fcls = p.cls(f"baize.{side}.staticfiles:Files")
         fr = p.find_method(fcls, "file_response")
         rep.analysed(fr.fq)
-        paths, col, it = run_paths(p, fr, fcls)
+        paths, col, it = run_paths(p, fr, fcls, inline=_sf_inline)
         rep.cfg_paths += len(paths)
         SR = ("param", "stat_result")
         n304 = nfile = 0
@@ -155,7 +155,7 @@ def run(p: Program, rep: Report, tier: str) -> None:
             cls = p.cls(f"baize.{side}.staticfiles:{cname}")
             call = p.find_method(cls, "__call__")
             want = {"wsgi": ("HTTP_IF_NONE_MATCH", "HTTP_IF_MODIFIED_SINCE"), "asgi": (b"if-none-match", b"if-modified-since")}[side]
-            unit = with_helpers(p, call)
+            unit = with_helpers(p, call, policy=_sf_inline)
             consts = [n.value for f_ in unit for n in ast.walk(f_.node) if isinstance(n, ast.Constant)]
             if all(w in consts for w in want):
                 rep.ok("R14.1", f"{side} {cname}: reads If-None-Match and If-Modified-Since")
@@ -165,7 +165,7 @@ def run(p: Program, rep: Report, tier: str) -> None:
             # ... and hands them to file_response unmodified.
             # (a) on the paths of __call__ (private helpers inlined) the two validator arguments of file_response are the header
             #     read itself - WSGI: environ.get(KEY, "") ; ASGI: the decoded value of a scope['headers'] pair, or the "" default
-            cpaths, ccol, _cit = run_paths(p, call, cls)
+            cpaths, ccol, _cit = run_paths(p, call, cls, inline=_sf_inline)
             rep.cfg_paths += len(cpaths)
             gate = ("param", call.params[1]) if len(call.params) > 1 else ("param", "environ" if side == "wsgi" else "scope")
             n_frc = 0
@@ -280,8 +280,8 @@ def run(p: Program, rep: Report, tier: str) -> None:
         v = pa.value
         pos = [f for f, t in pa.facts if t]
         neg = [f for f, t in pa.facts if not t]
-        if v == ("const", True) and ("cmp", "Eq", HDR, ("const", "*")) in pos:
-            star = True
+        if (v == ("const", True) or v == ("cmp", "Eq", HDR, ("const", "*"))) and ("cmp", "Eq", HDR, ("const", "*")) in pos:
+            star = True  # `return True` under the test, or `return header == "*" or ...` on the path where the first operand holds
             continue
         if v == ("const", False) and HDR in neg and len(pa.facts) == 1:
             empty = True
@@ -354,6 +354,19 @@ def run(p: Program, rep: Report, tier: str) -> None:
             rep.violation("R14.5", construct(f_, text="second 304 producer"), where(f_, n), f"{f_.fq} answers 304 by itself: 'not modified' is decided outside file_response, without the ETag / change-time "
                           "validators of the file's current stat (a replacement that keeps the mtime second revalidates although the content changed)")
     rep.require_instances("R14.5", 4)
+
+
+_SF_MODULES = ("baize.staticfiles", "baize.wsgi.staticfiles", "baize.asgi.staticfiles")
+_SF_KEEP = ("if_none_match", "if_modified_since", "file_response", "ensure_absolute_path", "check_path_is_file", "set_response_headers", "generate_etag", "__call__", "__init__")
+
+
+def _sf_inline(fi: FuncInfo) -> bool:
+    """in the analyses of the static-file applications every function of their own modules is part of the unit (a decision
+    split off into another method, a request-reading stage), except the ones the rules name"""
+    from ..collect import default_inline
+    if default_inline(fi):
+        return True
+    return fi.module.name in _SF_MODULES and fi.name not in _SF_KEEP and not fi.is_generator() and not fi.decorators
 
 
 def _header_derived(v: ast.expr, call: FuncInfo, side: str) -> bool:
